@@ -138,7 +138,7 @@ func refAllowed(mode string, token bool, tokenHost string, hosts []string, user 
 }
 
 func c03(env *Env, rep *Report) {
-	rep.Rule = "product of host-selection modes {any, signed, roundrobin, unsigned, \"\", bogus} x token auth {off, on with token host = each candidate} x 4 host lists (plain, with user placeholder, IPv6 literal, entry without port) x users {\"\", alice, bob, alice-host} x ~90 channel requests derived from every list entry " +
+	rep.Rule = "product of host-selection modes {any, signed, roundrobin, unsigned, \"\", bogus} x token auth {off, on with token host = each candidate} x 4 host lists (plain, with user placeholder, IPv6 literal, entry without port) x users {\"\", alice, bob, alice-host, bob$1, a$$b, ${x}y} x ~90 channel requests derived from every list entry " +
 		"(exact, without terminator, ports +-1/0/65535, name carrying :port, one/two/embedded NULs, every proper prefix, one-character extensions and prefixes, suffixes, superstring, upper case, another user's substituted entry, bracketed / IPv6 / zone forms, surrogate pairs, lone surrogates, odd length, length field shorter/longer/0xFFFF/0, resource counts 0/2, alternates 1). " +
 		"Plus two-user histories (user A then user B, 5 tunnels one after the other on the same gateway process, list and token modes): a user must still reach its own substituted entry and never another user's. Plus schedules: two tunnels whose real tokens (for different hosts) are verified by the real security.CheckPAACookie at the same time, the userinfo round trip being a scheduling point, one of them asking for the other's host (deviation bound 2, thorough 3). Each case is one execution of the real Processor with the real security.CheckSession/CheckHost wired as main.go does, all dials observed by the network shim. Oracle: reference policy over an independent UTF-16 decoding; allowed well-formed request => exactly one dial to JoinHostPort(name,port) and status 0; refused => E_PROXY_RAP_ACCESSDENIED, zero dials to any address; malformed => dials only to allowed addresses. distinct_nontrivial = distinct cases."
 	rep.Assumptions = append(rep.Assumptions,
@@ -151,7 +151,8 @@ func c03(env *Env, rep *Report) {
 		{"[::1]:3389", "hostb.example:3390"},
 		{"hostnoport", "hosta.example:3389"},
 	}
-	users := []string{"", "alice", "bob", "alice-host"}
+	// "bob$1", "a$$b", "${x}y": user names are data, not templates (a '$' in a name must survive substitution)
+	users := []string{"", "alice", "bob", "alice-host", "bob$1", "a$$b", "${x}y"}
 	modes := []string{"any", "signed", "roundrobin", "unsigned", "", "bogus"}
 	type cse struct {
 		mode    string
